@@ -92,7 +92,24 @@ def run(ctx):
             raise AnchorMissing("CommandOutput::append: truncate / encode")
         r.check(describe_operand(ap, tr[0].args[1]).endswith("offset") and ap.dominates(tr[0].block, enc[0].block), "append/truncate-to-offset-before-encode", tr[0].loc(), "buffer.truncate(*offset) precedes the encode",
                 "truncate(%s)" % describe_operand(ap, tr[0].args[1]))
-        ows = [(i, line, describe_rvalue(ap, rv), dom_guards(ap, i)) for i, j, p, rv, line in ap.assigns() if p[1] and describe_place(ap, p).endswith("offset")]
+        # every value that can be stored into `offset`, with the condition it is stored under. `*offset = if c { a } else { b }`
+        # assigns through a temporary with one definition per branch: those definitions are the updates.
+        ows = []
+        for i, j, p, rv, line in ap.assigns():
+            if not (p[1] and describe_place(ap, p).endswith("offset")):
+                continue
+            expanded = False
+            if rv[0] == "use" and rv[1][0] in ("c", "m") and not rv[1][1][1]:
+                ds = [d_ for d_ in ap.defs.get(rv[1][1][0], ()) if d_[0] in ("assign", "call")]
+                if len(ds) > 1:
+                    for d_ in ds:
+                        if d_[0] == "assign":
+                            ows.append((d_[1], line, describe_rvalue(ap, d_[3]), dom_guards(ap, d_[1]), d_[3]))
+                        else:
+                            ows.append((d_[1], line, describe_call(ap, d_[2]), dom_guards(ap, d_[1]), ("callval", d_[2])))
+                    expanded = True
+            if not expanded:
+                ows.append((i, line, describe_rvalue(ap, rv), dom_guards(ap, i), rv))
         stay = [o for o in ows if any(d == "overwrite_permitted" and l == "true" for d, l, _ in o[3])]
         adv = [o for o in ows if any(d == "overwrite_permitted" and l == "false" for d, l, _ in o[3])]
         r.check(len(stay) == 1 and len(adv) == 1 and len(ows) == 2, "append/offset-update-sites", where(ap), "offset is updated once on each edge of overwrite_permitted", "offset updates: %s" % [(o[2], [(d, l) for d, l, _ in o[3]]) for o in ows])
@@ -100,10 +117,17 @@ def run(ctx):
             lens = [c for c in ap.calls if c.name == "len" and "buffer" in describe_operand(ap, c.args[0])]
             before = [c for c in lens if ap.dominates(c.block, enc[0].block)]
             after = [c for c in lens if ap.dominates(enc[0].block, c.block)]
-            s_src = [s[1] for s in ap.sources(_assign_operand(ap, stay[0][0], "offset")) if s[0] == "call" and s[1].name == "len"]
-            a_src = [s[1] for s in ap.sources(_assign_operand(ap, adv[0][0], "offset")) if s[0] == "call" and s[1].name == "len"]
+
+            def len_sources(o):
+                rv_ = o[4]
+                if rv_[0] == "callval":
+                    return [rv_[1]] if rv_[1].name == "len" else []
+                op_ = rv_[1] if rv_[0] == "use" else None
+                return [s_[1] for s_ in ap.sources(op_) if s_[0] == "call" and s_[1].name == "len"] if op_ is not None else []
+            s_src = len_sources(stay[0])
+            a_src = len_sources(adv[0])
             r.check(bool(s_src) and all(c in before for c in s_src), "append/overwritable=>offset-at-record-start", ap.loc(stay[0][1]), "for an overwritable record offset stays at the record's start (buffer.len() read before the encode)",
-                    "offset for an overwritable record is not the start of that record")
+                    "offset for an overwritable record is `%s`, not the start of that record (buffer.len() sampled before it was appended): the next append truncates the buffer there and discards the queued commands that precede the record" % stay[0][2][:40])
             r.check(bool(a_src) and all(c in after for c in a_src), "append/non-overwritable=>offset-at-end", ap.loc(adv[0][1]), "for a non-overwritable record offset moves to buffer.len() read after the encode: it can never be truncated",
                     "offset for a non-overwritable record is not read after the encode: the next append truncates (drops) it")
         dp = [c for c in ap.calls if c.name == "push" and describe_operand(ap, c.args[0]).endswith(".dirty")]
